@@ -136,6 +136,7 @@ type Case struct {
 	Ops     []Op       `json:"ops"`
 	Chunked bool       `json:"chunked,omitempty"` // small chunk / max-put sizes so that uploads are chunked
 	Special bool       `json:"special,omitempty"` // passwords contain characters that differ under URL / form encoding
+	LogVia  string     `json:"log_via,omitempty"` // "" slog text handler | json slog JSON handler | logrus | logrus-json (the logrus bridge)
 }
 
 var repoNames = []string{"proj/app", "lib/base"}
